@@ -399,6 +399,15 @@ def _icm(chk, ctx, mi) -> None:
         fresh = len(first) == 2 and all(isinstance(st.value, ast.Constant) and st.value.value == 1.0 for st in first)
     facts['conditional probability, divided before the player is removed'] = order_ok
     facts['fresh probability per order'] = fresh
+    # every player keeps his seat: the stacks are taken as given (only made a tuple), one value per stack, returned in seat order
+    binds = [n for n in walk_no_nested(fi.node) if isinstance(n, (ast.Assign, ast.AugAssign, ast.AnnAssign))
+             for t in (n.targets if isinstance(n, ast.Assign) else [n.target]) if isinstance(t, ast.Name) and t.id == 'chips']
+    rets = [n for n in walk_no_nested(fi.node) if isinstance(n, ast.Return)]
+    facts['stacks taken as given, one value per seat, in seat order'] = \
+        all(isinstance(n, ast.Assign) and T.norm(n.value) == T.spec('tuple(chips)') for n in binds) and len(binds) <= 1 \
+        and len(rets) == 1 and rets[0].value is not None and any(
+            isinstance(a.targets[0], ast.Name) and T.norm(rets[0].value) == ('call', 'tuple', (('name', a.targets[0].id),), ())
+            for a in m.assigns(fi.node, '[0.0] * len(chips)'))
     missing = [k for k, v in facts.items() if not v]
     chk.ob('C18.icm', 'analysis.calculate_icm', not missing, fi.loc,
            'Malmuth-Harville: P(order) = prod chips_i / (chips not yet placed); each player gets payout_k * P for finishing k-th; '
